@@ -6,5 +6,6 @@ pub mod fmt;
 pub mod known;
 pub mod props;
 pub mod queue;
+pub mod sockets;
 pub mod util;
 pub mod writer;
